@@ -21,9 +21,9 @@ from vf.gen import c02_outline as G
 
 LEVEL = "exploration"
 RULE = ("outlines of headings (levels 1..6, 12 title decorations), */# list lines (30 markers of depth<=4, 12 item "
-        "decorations), rules and 16 balanced filler blocks, every line carrying a unique id; bounded-exhaustive parts: "
+        "decorations), rules and the balanced filler blocks of vf/gen/c02_outline.py (plain/inline markup, templates, colon-style parser functions, div/table blocks, end tags with white space before '>', space-indented lines), every line carrying a unique id; bounded-exhaustive parts: "
         "all level sequences up to length 3 (quick) / 4 (thorough) x rule at every position x gap filler (quick: "
-        "paragraph, nothing; thorough: every catalogue block, nothing), all marker sequences up to 2 (quick) / 3 "
+        "paragraph, nothing, 2 parser-function blocks, split end tag, indented line; thorough: every catalogue block, nothing), all marker sequences up to 2 (quick) / 3 "
         "(thorough) lines, consecutive and with a filler block between the last two lines (quick: every catalogue "
         "block; thorough: 6 of them); sampled part: random outlines up to 10 headings / 12 list lines / 22 lines, "
         "optional balanced <div> wrapping a run of lines, under parse / pre_expand / expand_all, with/without final "
@@ -31,7 +31,7 @@ RULE = ("outlines of headings (levels 1..6, 12 title decorations), */# list line
         "list line / rule)")
 ASSUMPTIONS = [
     "ids H<n>/I<n>/F<n> identify tree nodes: the catalogue texts contain no other token of that shape",
-    "'balanced filler' is read as the 16-block catalogue in vf/gen/c02_outline.py (complete lines, all markup closed in the block); "
+    "'balanced filler' is read as the F_KIND catalogue in vf/gen/c02_outline.py (complete lines, all markup closed in the block; quote markup is line-scoped, so no ''..'' spans lines); a space-indented filler is never placed directly after a list line (continuation of the item); the tree parent of a section node must be its parent section node or the root; "
     "headings are never placed inside a filler",
     "a line of the outline that is not a list line (heading, rule, filler, blank line, <div>/</div> wrapper line) closes all open lists",
     "per-case CPU budget 20 s stands for 'parse returns'",
@@ -42,13 +42,13 @@ MODE_TAG = ["", "+pre_expand", "+expand_all"]
 NSH = 16
 QUICK_SAMPLED = 8000       # per shard
 THOROUGH_SAMPLED = 180000  # per shard
-FAMILY = {"pf_": "pf_if", "et_": "et_div_nl"}  # filler/decoration families -> canonical member
+FAMILY = {"pf_": "pf_if", "et_": "et_div_nl", "ind_": "ind_line"}  # filler/decoration families -> canonical member
 ID_RE = re.compile(r"(?<![A-Za-z0-9])([HIF]\d+)(?![A-Za-z0-9])")
 
 
 def bounds(tier):
     if tier == "quick":
-        return {"hlen": 3, "hfill": ["para", "none", "pf_if", "pf_nest", "et_div_nl"], "llen": 2, "lfill": G.F_KINDS}
+        return {"hlen": 3, "hfill": ["para", "none", "pf_if", "pf_nest", "et_div_nl", "ind_line"], "llen": 2, "lfill": G.F_KINDS_AFTER_LIST}
     return {"hlen": 4, "hfill": G.F_KINDS + ["none"], "llen": 3, "lfill": ["para", "blank", "div", "table", "tmpl", "span", "pf_if", "pf_nest", "et_div_nl"]}
 
 
@@ -138,7 +138,7 @@ def extract(root):
                 A["anon_level"] += 1
                 hid = "?"
             else:
-                A["H"].setdefault(hid, []).append((LEV[k], sec, len(n.largs)))
+                A["H"].setdefault(hid, []).append((LEV[k], sec, len(n.largs), parent_kind.name))
             A["maxsec"] = max(A["maxsec"], sdepth + 1)
             for c in n.children:
                 walk(c, hid, None, None, sdepth + 1, 0, k)
@@ -222,7 +222,7 @@ def compare(lines, A, obs=None):
                 rel = ("left-as-text" if i in A["astext"] else "missing") if not occ else "duplicated"
                 mm(pos, 0, "heading-node-count", rel, "%s: %d LEVEL nodes" % (i, len(occ)))
                 continue
-            lv, par, nargs = occ[0]
+            lv, par, nargs, pkind = occ[0]
             if lv != ln["lv"]:
                 mm(pos, 1, "heading-level", "deeper" if lv > ln["lv"] else "shallower", "%s: LEVEL%d for %d '='" % (i, lv, ln["lv"]))
             if i in A["astext"]:
@@ -230,6 +230,10 @@ def compare(lines, A, obs=None):
             exp = H[i][1]
             if par != exp:
                 mm(pos, 2, "heading-parent", sec_relation(H, exp, par), "%s: parent section %s, model %s" % (i, par, exp))
+            # the section node's tree parent is the parent section node itself (the root when it has none): the
+            # outline never puts a heading inside a filler or wrapper, so nothing else may be open there
+            if not (pkind == "ROOT" or pkind.startswith("LEVEL")):
+                mm(pos, 3, "heading-container", "inside-" + pkind, "%s: section node is a child of a %s node" % (i, pkind))
         elif k == "hr":
             n_ids += 1
             exp = mod["HR"][hr_i]
@@ -338,7 +342,7 @@ class Monitor:
         memo = self.memo
 
         def holds(ls, md=mode, nl=eof_nl):
-            if not ls:
+            if not ls or not G.admissible(ls):
                 return False
             ls = G.with_ids(ls)  # canonical ids: the verdicts of small outlines repeat a lot
             key = (G.render(ls, nl), md)
